@@ -92,34 +92,37 @@ Proof.
     destruct (IH n' eq_refl) as (A & B & C). rewrite C. cbn [firstn skipn length]. repeat split; lia.
 Qed.
 
-(* a newline-free prefix of a text whose lines and rest respect the limits is short *)
+(* the limits of the domain, seen from inside the stream: complete lines (newline included) and
+   the unterminated rest are at most CBUF_MAXSIZE bytes long *)
 Definition lines_ok (st : bytes) : Prop :=
-  Forall (line_ok CBUF_MAXSIZE) (fst (sl st)) /\ line_ok (CBUF_MAXSIZE - 1) (snd (sl st)).
+  Forall (line_ok CBUF_MAXSIZE) (fst (sl st)) /\ line_ok CBUF_MAXSIZE (snd (sl st)).
 
 Lemma sl_prefix_len t : forall b, nonl t ->
   match fst (sl (t ++ b)) with
-  | [] => (length t <= length (snd (sl (t ++ b))))%nat
+  | [] => snd (sl (t ++ b)) = t ++ b
   | l :: _ => (length t < length l)%nat
   end.
 Proof.
   unfold nonl. induction t as [|x r IH]; intros b H; cbn [app sl length].
-  - destruct (fst (sl b)) as [|l ?] eqn:E; [lia|].
-    destruct b as [|y b']; [discriminate|]. cbn [sl] in E. destruct (sl b') as [ls t].
-    destruct (y =? 10); [injection E as <- _; cbn [length]; lia|].
-    destruct ls; [discriminate|]. injection E as <- _. cbn [length]. lia.
+  - destruct (fst (sl b)) as [|l ?] eqn:E.
+    + pose proof (sl_concat b) as C. rewrite E in C. cbn [concat app] in C. auto.
+    + destruct b as [|y b']; [discriminate|]. cbn [sl] in E. destruct (sl b') as [ls t].
+      destruct (y =? 10); [injection E as <- _; cbn [length]; lia|].
+      destruct ls; [discriminate|]. injection E as <- _. cbn [length]. lia.
   - assert (Hr : ~ In 10 r) by (intro; apply H; right; auto).
     specialize (IH b Hr). destruct (sl (r ++ b)) as [ls t]. cbn [fst snd] in IH.
     destruct (x =? 10) eqn:E; [apply N.eqb_eq in E; subst; exfalso; apply H; left; auto|].
-    destruct ls; cbn [fst snd length]; lia.
+    destruct ls; cbn [fst snd length]; [congruence|lia].
 Qed.
 
-Lemma partial_bound t b : nonl t -> lines_ok (t ++ b) -> N.of_nat (length t) < CBUF_MAXSIZE.
+(* a newline-free prefix of a text within the limits leaves room in the buffer, unless it is
+   the whole text (an unterminated rest of exactly CBUF_MAXSIZE bytes with nothing after it) *)
+Lemma partial_bound t b : nonl t -> lines_ok (t ++ b) -> N.of_nat (length t) < CBUF_MAXSIZE \/ b = [].
 Proof.
   intros Ht [H1 H2]. pose proof (sl_prefix_len t b Ht) as P. unfold line_ok in *.
-  assert (0 < CBUF_MAXSIZE) by (unfold CBUF_MAXSIZE; lia).
   destruct (fst (sl (t ++ b))) as [|l ls].
-  - lia.
-  - inversion H1; subst. unfold line_ok in *. lia.
+  - rewrite P, app_length in H2. destruct b; [right; reflexivity|left; cbn [length] in H2; lia].
+  - left. inversion H1; subst. unfold line_ok in *. lia.
 Qed.
 
 Lemma lines_ok_tail a b : lines_ok (a ++ b) -> lines_ok (snd (sl a) ++ b).
